@@ -18,7 +18,12 @@ use serde_json::{json, Value};
 use crate::common::{catch, hash_of, panic_sig, Check, Fail};
 use crate::gen::Tier;
 
-pub const VERIF_DIR: &str = "/verif";
+/// Root of the verification tree: `/verif`, or the directory of the `check` script that started us (so that a
+/// snapshot started with `vp run` keeps its build output, evidence and replays to itself).
+pub fn verif_dir() -> &'static str {
+    static D: std::sync::OnceLock<String> = std::sync::OnceLock::new();
+    D.get_or_init(|| std::env::var("VERIF_ROOT").ok().filter(|s| !s.is_empty()).unwrap_or_else(|| "/verif".to_string()))
+}
 
 /// What a case reports about itself.
 #[derive(Default, Debug, Clone)]
@@ -116,7 +121,7 @@ pub struct KnownFinding {
 }
 
 pub fn load_known() -> Vec<KnownFinding> {
-    let p = Path::new(VERIF_DIR).join("known_findings.json");
+    let p = Path::new(verif_dir()).join("known_findings.json");
     match std::fs::read_to_string(&p) {
         Ok(s) => {
             #[derive(Deserialize)]
@@ -416,7 +421,7 @@ fn finish(
         "wall_s": t0.elapsed().as_secs_f64(),
         "violations": reported.len(),
     });
-    let evdir = Path::new(VERIF_DIR).join("evidence");
+    let evdir = Path::new(verif_dir()).join("evidence");
     let _ = std::fs::create_dir_all(&evdir);
     std::fs::write(evdir.join(format!("{id}.json")), serde_json::to_string_pretty(&ev).unwrap())
         .expect("cannot write evidence");
@@ -427,7 +432,7 @@ fn finish(
         }
     }
     if !reported.is_empty() {
-        let rdir = Path::new(VERIF_DIR).join("replays");
+        let rdir = Path::new(verif_dir()).join("replays");
         let _ = std::fs::create_dir_all(&rdir);
         for v in &reported {
             let h = hash_of(&(v.fail.signature.clone(), v.case_json.to_string()));
